@@ -70,6 +70,24 @@ def generate(prop, seed, tier):
                                 tzinfo=dt.timezone.utc).timestamp())
     desc["epoch"] = float(epoch)
     desc["zone"] = zone
+    if tr and rng.random() < 0.5:
+        # touch the stores: instants placed around the transition, some exactly one DST shift apart (the same
+        # wall-clock reading twice in a fall-back)
+        names0 = sorted(desc["world"]["stores"])
+        shift = abs(delta) if "delta" in dir() and delta else 3600
+        base = (inst - epoch) if "inst" in dir() else 0
+        offs, used = {}, set()
+        # wall-clock readings that occur twice: w (first pass) and w + shift (second pass) denote different instants
+        firsts = [-shift + 1, -shift // 2, -61, -7, -1]
+        pool = firsts + [w + shift for w in firsts] + [-shift - 5, shift + 5, 0, 1]
+        for nm in names0:
+            for _ in range(20):
+                o = base + rng.choice(pool) + rng.choice([0, 0, 0, 0.25, 13])
+                if o not in used:
+                    used.add(o)
+                    offs[nm] = o
+                    break
+        desc["ops"].insert(len(desc["ops"]) - 1, dict(op="retime", offsets=offs))
     names = sorted(desc["world"]["stores"])
     variants = [dict(tz="UTC", renders={n: "aware-utc" for n in names}, fresh_render="aware-utc")]
     for _ in range(3 if tier == "quick" else 5):
